@@ -601,6 +601,28 @@ def discharge_assert(kind, op, ops, tys, lin, iv, get_facts):
         b = iv.of(ops[1], ty)
         if op == "Add" and a[1] is not None and b[1] is not None and a[1] + b[1] <= hi:
             return True, "D3 interval: %s + %s <= %s::MAX" % (a[1], b[1], ty)
+        if op == "Add":
+            fs0 = get_facts()
+            for z in (ops[1], ops[0]):
+                if ent(fs0, lin.of_value(z), lin):
+                    return True, "D2z: one operand is zero on this path (x <= 0 for an unsigned x)"
+        if op == "Add":
+            # D2s: b <= L.saturating_sub(a)  =>  a + b <= max(a, L): cannot overflow the common type (when a > L the
+            # difference is 0, so b is 0) - the cursor idiom `pos += n` after `n <= len.saturating_sub(pos)`
+            fs = get_facts()
+            la, lb = lin.of_value(ops[0]), lin.of_value(ops[1])
+            cands = set()
+            for f_ in fs + [lb]:
+                for at in f_[0]:
+                    if isinstance(at, tuple) and at and at[0] == "call" and at[1].split("::")[-1] == "saturating_sub" and len(at) > 2:
+                        cands.add(at)
+            for at in sorted(cands, key=repr)[:8]:
+                args_ = [x for x in at[2] if not (isinstance(x, tuple) and x and x[0] == "targs")]
+                if len(args_) != 2:
+                    continue
+                for (x_, y_) in ((la, lb), (lb, la)):
+                    if lin.of_value(args_[1]) == x_ and ent(fs, linear.lin_add(y_, linear.atom(at), -1), lin):
+                        return True, "D2s: the addend is at most L.saturating_sub(base), so base + addend <= max(base, L)"
         if op == "Add" and hi is not None and hi >= A_MEM:
             # D2m: the sum is bounded by the length of an in-memory sequence (a + b <= len(x) from the path facts; A-MEM)
             fs = get_facts()
